@@ -38,6 +38,10 @@ type THooks struct {
 	// Phi tells the client which incoming value a phi takes on the edge being followed (all phis
 	// of a block are reported against the state before the edge: parallel assignment). May be nil.
 	Phi func(ph *ssa.Phi, incoming ssa.Value, st TState) TState
+	// Value lets the client supply the truth of a boolean SSA value it can decide (e.g. a comparison
+	// evaluated in the abstract world of the walk). Consulted where the walker has no fact of its
+	// own: at branches, at phis along the edge taken, at a helper's boolean return. May be nil.
+	Value func(v ssa.Value, st TState) (truth bool, known bool)
 }
 
 // enterState applies the Phi hook for the edge p -> n.
@@ -194,6 +198,8 @@ type TExit struct {
 	// ErrNil: 1 the returned error is nil, 0 non-nil, -1 unknown / no error result
 	ErrNil int
 	Ret    *ssa.Return
+	// BoolRet: for a function whose first result is a bool: 1 true, 0 false, -1 unknown on this path
+	BoolRet int
 }
 
 // WalkTypestate enumerates the paths of fn from its entry with client state st. sc (may be nil)
@@ -281,10 +287,19 @@ func (w *tsWalker) walk(fn *ssa.Function, st TState) []TExit {
 						}
 					}
 				}
-				k := fmt.Sprintf("%s|%d|%d", cur.Key(), en, x.Pos())
+				br := -1
+				if len(x.Results) > 0 && isBool(x.Results[0].Type()) {
+					if f, ok := w.valueFact(RetVal(x, 0), facts, cur, 0); ok {
+						br = 0
+						if f {
+							br = 1
+						}
+					}
+				}
+				k := fmt.Sprintf("%s|%d|%d|%d", cur.Key(), en, br, x.Pos())
 				if !exitSeen[k] {
 					exitSeen[k] = true
-					exits = append(exits, TExit{St: cur, ErrNil: en, Ret: x})
+					exits = append(exits, TExit{St: cur, ErrNil: en, Ret: x, BoolRet: br})
 				}
 				dead = true
 				continue
@@ -304,7 +319,7 @@ func (w *tsWalker) walk(fn *ssa.Function, st TState) []TExit {
 					w.edges[[2]*ssa.BasicBlock{it.b, n}] = true
 				}
 				if ns := w.enterState(it.b, n, cur); ns != nil {
-					work = append(work, tsItem{n, 0, ns, enterFacts(it.b, n, facts)})
+					work = append(work, tsItem{n, 0, ns, w.enterFactsV(it.b, n, facts, cur)})
 				}
 				dead = true
 				continue
@@ -318,8 +333,12 @@ func (w *tsWalker) walk(fn *ssa.Function, st TState) []TExit {
 						if _, isGo := in.(*ssa.Go); !isGo {
 							for _, ex := range w.walk(cal, cur) {
 								nf := facts
-								if ex.ErrNil >= 0 {
+								if v, ok := in.(ssa.Value); ok && ex.BoolRet >= 0 && cal.Signature.Results().Len() == 1 {
 									nf = facts.clone()
+									nf[v] = ex.BoolRet == 1
+								}
+								if ex.ErrNil >= 0 {
+									nf = nf.clone()
 									if v, ok := in.(ssa.Value); ok {
 										res := cal.Signature.Results()
 										if res.Len() == 1 {
@@ -518,6 +537,10 @@ func (w *tsWalker) branch(iff *ssa.If, b *ssa.BasicBlock, st TState, facts factE
 		known, val = true, f == t
 	} else if knownNonNil(v) && !isBool(v.Type()) {
 		known, val = true, false == t
+	} else if isBool(v.Type()) {
+		if f, ok := w.valueFact(v, facts, st, 0); ok {
+			known, val = true, f == t
+		}
 	}
 	for side := 0; side < 2; side++ {
 		taken := side == 0 // Succs[0] is the true side
@@ -540,6 +563,67 @@ func (w *tsWalker) branch(iff *ssa.If, b *ssa.BasicBlock, st TState, facts factE
 		if ns = w.enterState(b, n, ns); ns == nil {
 			continue
 		}
-		*work = append(*work, tsItem{n, 0, ns, enterFacts(b, n, nf)})
+		*work = append(*work, tsItem{n, 0, ns, w.enterFactsV(b, n, nf, st)})
 	}
+}
+
+
+// valueFact: the truth of a boolean value on the current path, from constants, recorded facts,
+// negation, or the client's Value hook.
+func (w *tsWalker) valueFact(v ssa.Value, facts factEnv, st TState, d int) (bool, bool) {
+	if v == nil || !isBool(v.Type()) {
+		return false, false
+	}
+	if f, ok := constFact(v); ok {
+		return f, true
+	}
+	if f, ok := facts[v]; ok {
+		return f, true
+	}
+	if d > 4 {
+		return false, false
+	}
+	if u, ok := v.(*ssa.UnOp); ok && u.Op == token.NOT {
+		if f, ok := w.valueFact(u.X, facts, st, d+1); ok {
+			return !f, true
+		}
+	}
+	if w.h.Value != nil {
+		return w.h.Value(v, st)
+	}
+	return false, false
+}
+
+// enterFactsV is enterFacts plus: a boolean phi whose incoming value has no recorded fact takes the
+// truth valueFact can establish for it.
+func (w *tsWalker) enterFactsV(p, n *ssa.BasicBlock, facts factEnv, st TState) factEnv {
+	out := enterFacts(p, n, facts)
+	idx := -1
+	for i, pp := range n.Preds {
+		if pp == p {
+			idx = i
+			break
+		}
+	}
+	if idx < 0 {
+		return out
+	}
+	cloned := false
+	for _, in := range n.Instrs {
+		ph, ok := in.(*ssa.Phi)
+		if !ok {
+			break
+		}
+		if _, has := out[ph]; has || !isBool(ph.Type()) {
+			continue
+		}
+		if f, ok := w.valueFact(ph.Edges[idx], facts, st, 0); ok {
+			if !cloned {
+				out = out.clone()
+				cloned = true
+			}
+			out[ph] = f
+		}
+	}
+	return out
 }
